@@ -880,7 +880,10 @@ class Interp:
     # ------------------------------------------------------------------ expressions
     def lookup(self, name, frame):
         if name in frame.env:
-            return frame.env[name]
+            v = frame.env[name]
+            if type(v).__name__ == "UnboundAfterLoop":
+                raise EngineError(f"variable {name!r} is read after the loop at {v.where} whose zero-trip case was not split off")
+            return v
         m = frame.module
         if name in m.defs:
             n = m.defs[name]
